@@ -203,7 +203,25 @@ def rule_newline_guards(ctx):
             r.check(want in leaves, "%s/%s-not-ignored/%s" % (qn, second, (n.get("c") or "?").split("::")[-1]), db.loc(f, n),
                     "%s() edits a line break without having excluded that `%s` (the chunk after the break) is a line of a disabled region; "
                     "excluded here: %s" % (qn, second, sorted(x for x in leaves if "IGNORED" in x) or "nothing about CT_IGNORED"))
-    r.floor(3)
+    # every deletion of a line break asks Chunk::SafeToDeleteNl() (C02.newline-crossing): it must say no on both sides of a
+    # region line
+    sfs = [g for g in db.fns("Chunk::SafeToDeleteNl")]
+    r.require(len(sfs) >= 1, "Chunk::SafeToDeleteNl not found")
+    g = sfs[0]
+    sides = set()
+    for n in g.all_nodes():
+        if n["k"] == "ret" and n.get("a") and (g.nodes.get(n["a"][0]) or {}).get("k") == "bool" and not g.nodes[n["a"][0]]["v"]:
+            for cn, pol in g.guard_conds(g.nblock[n["i"]]):
+                t = expr_str(g, cn) if cn is not None else ""
+                if pol is True and "CT_IGNORED" in t:
+                    for part in t.split(" || "):
+                        if "Is(CT_IGNORED)" in part:
+                            sides.add("next" if "GetNext" in part else "prev")
+    r.seen()
+    r.check(sides == {"prev", "next"}, "SafeToDeleteNl/false-next-to-a-region-line", db.loc(g, g.l0),
+            "Chunk::SafeToDeleteNl() does not refuse a line break whose %s chunk is CT_IGNORED: options that remove newlines (nl_fdef_brace=remove "
+            "...) join the lines of a disabled region" % "/".join(sorted({"prev", "next"} - sides)))
+    r.floor(4)
 
 
 def rule_region_uncounted(ctx):
